@@ -2406,6 +2406,9 @@ func c14GenUnit(r *rng, pkg string, nEntry int, hist map[string]int) c14Unit {
 			g.emitf("")
 			entries = append(entries, c14Func{Name: name, Params: []string{"int", "bool"}, Ret: "int"})
 			continue
+		case i%9 == 4 && c14Allow("recseq"): // several functions with defers / recovers in one invocation
+			entries = append(entries, g.recoverSeqEntry(name))
+			continue
 		case i%9 == 8: // defer entry
 			g.tag("defer-entry")
 			g.emitf("func %s(a int, f bool) int {", name)
@@ -2497,6 +2500,173 @@ func (g *c14Gen) deferFunc(name string) {
 	g.emitf("")
 }
 
+// ---------- the saved panic value across several defers / recovers of one invocation ----------
+//
+// recover() reads AND clears the slot that holds the panic value, in whatever syntactic position it stands. One entry
+// function calls 2-4 functions with defers one after the other: bodies that panic or not (by argument), deferred
+// closures that call recover() as a bare statement, as `_ = recover()`, as `r := recover()` tested for nil, inside a
+// condition, not at all, or twice in a row (the second one must see nil); several defers in a function that does not
+// panic (each recover() must see nil — also after an EARLIER function of the sequence swallowed a panic); an inner
+// function that recovers under an outer one whose defers test recover(); a deferred function that panics again.
+// Inside what the unchanged compiler handles like Go (notes: F147-F149): a function under which something can panic
+// has exactly one defer, a closure that calls recover(); results are unnamed.
+
+// recForm emits the body of a deferred closure; base: the note codes it uses
+func (g *c14Gen) recForm(form, base int) {
+	switch form {
+	case 0:
+		g.tag("rec-bare")
+		g.emitf("recover()")
+	case 1:
+		g.tag("rec-blank")
+		g.emitf("_ = recover()")
+	case 2:
+		g.tag("rec-var")
+		g.emitf("r := recover()")
+		g.emitf("if r != nil {")
+		g.emitf("\tnote(%d)", base+1)
+		g.emitf("} else {")
+		g.emitf("\tnote(%d)", base)
+		g.emitf("}")
+	case 3:
+		g.tag("rec-cond")
+		g.emitf("if recover() != nil {")
+		g.emitf("\tnote(%d)", base+1)
+		g.emitf("} else {")
+		g.emitf("\tnote(%d)", base)
+		g.emitf("}")
+	case 4:
+		g.tag("rec-twice-bare")
+		g.emitf("recover()")
+		g.emitf("if r := recover(); r != nil {")
+		g.emitf("\tnote(%d)", base+3)
+		g.emitf("} else {")
+		g.emitf("\tnote(%d)", base+2)
+		g.emitf("}")
+	case 5:
+		g.tag("rec-twice-var")
+		g.emitf("r1 := recover()")
+		g.emitf("r2 := recover()")
+		g.emitf("if r1 != nil {")
+		g.emitf("\tnote(%d)", base+1)
+		g.emitf("}")
+		g.emitf("if r2 != nil {")
+		g.emitf("\tnote(%d)", base+3)
+		g.emitf("} else {")
+		g.emitf("\tnote(%d)", base+2)
+		g.emitf("}")
+	default: // no recover at all
+		g.emitf("note(%d)", base+4)
+	}
+}
+
+func (g *c14Gen) recDefer(form, base int) {
+	g.emitf("defer func() {")
+	g.indent++
+	g.recForm(form, base)
+	g.indent--
+	g.emitf("}()")
+}
+
+// recFunc emits one function `name(a int, f bool) int` of the sequence
+func (g *c14Gen) recFunc(name string, base int) {
+	r := g.r
+	kind := r.intn(10)
+	if kind >= 8 && !c14Allow("repanic") {
+		kind = r.intn(8)
+	}
+	switch {
+	case kind < 3: // may panic: one recovering closure
+		g.tag("recseq-panic")
+		g.emitf("func %s(a int, f bool) int {", name)
+		g.indent++
+		g.recDefer(r.intn(6), base)
+		g.emitf("note(a %% 97)")
+		g.emitf("x := thrower(a) * 3")
+		if r.bool() {
+			g.emitf("if f {")
+			g.emitf("\tx = thrower(x + a)")
+			g.emitf("}")
+		}
+		g.emitf("note(x %% 89)")
+		g.emitf("return x %% %d", c14M)
+	case kind < 6: // never panics: several defers, every recover() sees nil
+		g.tag("recseq-quiet")
+		g.emitf("func %s(a int, f bool) int {", name)
+		g.indent++
+		for k := 0; k < 1+r.intn(3); k++ {
+			if r.chance(20) {
+				g.emitf("defer note(%d)", base+40+k)
+			} else {
+				g.recDefer(r.intn(7), base+10*k)
+			}
+		}
+		g.emitf("x := (a%%1000*3 + %d) %% 1000", r.intn(100))
+		g.emitf("note(x)")
+		g.emitf("return x")
+	case kind < 8: // the inner function recovers, the defers of the outer one see nothing
+		g.tag("recseq-nested")
+		g.emitf("func %si(a int) int {", name)
+		g.indent++
+		g.recDefer(r.intn(6), base+50)
+		g.emitf("return thrower(a) * 2")
+		g.indent--
+		g.emitf("}")
+		g.emitf("")
+		g.emitf("func %s(a int, f bool) int {", name)
+		g.indent++
+		for k := 0; k < 1+r.intn(2); k++ {
+			g.recDefer(2+r.intn(4), base+10*k)
+		}
+		g.emitf("y := %si(a)", name)
+		g.emitf("note(y %% 89)")
+		g.emitf("return (y + 1) %% %d", c14M)
+	default: // a deferred function panics again; the caller recovers that one
+		g.tag("recseq-repanic")
+		g.emitf("func %si(a int) int {", name)
+		g.indent++
+		g.emitf("defer func() {")
+		g.emitf("\tif r := recover(); r != nil {")
+		g.emitf("\t\tnote(%d)", base+60)
+		g.emitf("\t\tpanic(\"again\")")
+		g.emitf("\t}")
+		g.emitf("}()")
+		g.emitf("return thrower(a) * 2")
+		g.indent--
+		g.emitf("}")
+		g.emitf("")
+		g.emitf("func %s(a int, f bool) int {", name)
+		g.indent++
+		g.recDefer(r.intn(6), base)
+		g.emitf("y := %si(a)", name)
+		g.emitf("note(y %% 89)")
+		g.emitf("return (y + 1) %% %d", c14M)
+	}
+	g.indent--
+	g.emitf("}")
+	g.emitf("")
+}
+
+func (g *c14Gen) recoverSeqEntry(name string) c14Func {
+	r := g.r
+	g.tag("recseq-entry")
+	n := 2 + r.intn(3)
+	for k := 0; k < n; k++ {
+		g.recFunc(fmt.Sprintf("rs%s_%d", name, k), 1000+100*k)
+	}
+	g.emitf("func %s(a int, f bool) int {", name)
+	g.indent++
+	g.emitf("acc := 0")
+	for k := 0; k < n; k++ {
+		g.emitf("acc = (acc*31 + rs%s_%d(a%%7+%d, f)) %% %d", name, k, r.intn(10), c14M)
+	}
+	g.emitf("return (acc*31 + logsum()) %% %d", c14M)
+	g.indent--
+	g.emitf("}")
+	g.emitf("")
+	return c14Func{Name: name, Params: []string{"int", "bool"}, Ret: "int"}
+}
+
 // helper package: every function of it is inlined at its call sites by the compiler
 func c14HelperSrc(name string, r *rng) string {
 	k := 2 + r.intn(5)
@@ -2550,7 +2720,7 @@ func c14Allow(feature string) bool {
 	}
 	// repaired in /repo (F142: default clause not last, F141: function values with several arguments, F157: functions and
 	// variables used only by an init() that is not the last one of its package): generated again
-	if feature == "earlydefault" || feature == "lambda2" || feature == "initusage" {
+	if feature == "earlydefault" || feature == "lambda2" || feature == "initusage" || feature == "recseq" || feature == "repanic" {
 		return true
 	}
 	for _, f := range strings.Split(os.Getenv("C14_ALLOW"), ",") {
